@@ -393,6 +393,13 @@ macro_rules! c10_seq {
             c10_seq!($p $m $l $sel $v ($k + 1); $($rest)*);
         }
     };
+    // remove at one fixed index
+    ($p:ident $m:ident $l:ident $sel:ident $v:ident ($k:expr); remat($i:literal) $($rest:tt)*) => {
+        {
+            c10_do_remove(&mut $p, &mut $m, &mut $l, $i);
+            c10_seq!($p $m $l $sel $v ($k + 1); $($rest)*);
+        }
+    };
     ($p:ident $m:ident $l:ident $sel:ident $v:ident ($k:expr); rem $($rest:tt)*) => {
         if $m.n >= 1 {
             c10_branch($sel[$k], $m.n - 1, |j| {
@@ -463,3 +470,7 @@ c10_h!(c10_ops_ins_needs_defrag, 6; push(2000) push(1000) rem ins(1000));
 // @obl harness=c10_ops_err_full id=C10.page_ops[push2000,push1000,ins1000=Err] tier=quick funcs="BtreeOps::insert,BtreeOps::defragment" bounds="page 4096; cells of 2000 and 1000 bytes, a third of 1000 bytes does not fit at any index: Err(StorageFull) after an internal defragment; page logically unchanged; then a 900-byte cell fits" stubs="std::fmt::format"
 c10_h!(c10_ops_err_full, 6; push(2000) push(1000) ins(1000) ins(900));
 
+
+c10_h!(c10_probe_e1, 6; push(120) push(24) push(8) defrag);
+c10_h!(c10_probe_e2, 6; push(24) push(8) remat(0) defrag);
+c10_h!(c10_probe_e3, 6; push(120) push(24) push(8) remat(0) defrag);
